@@ -139,12 +139,11 @@ def structure_rules(repo, res):
         ok = rep_get(a[0], lambda k: k == ("field", ("param", 0, param), "starting_state"))
         res.check(ok, "REP", f"REP:{fq}:start", f"start state = {A.show(a[0])[:90]}", fn.loc())
         acc = a[2]
-    # the new accepting set: some insert takes the representative of each element of the old automaton's accepting_states
+    # the new accepting set: the representative is looked up for each element of the old automaton's accepting_states (inserted one
+    # by one, or mapped and collected)
     ok = False
-    for c in P.find_calls(fn.body, methods={"insert"}):
-        if len(c["args"]) != 1:
-            continue
-        v = A.resolve(c["args"][0], envs.get(id(c)))
+    for c in P.find_calls(fn.body, methods={"get"}):
+        v = A.resolve(c, envs.get(id(c)))
         ok = ok or rep_get(v, lambda k: k[0] == "elem" and "accepting_states" in A.show(k))
     res.check(ok, "REP", f"REP:{fq}:accepting", "every accepting state is replaced by its representative", fn.loc())
     ts = [s for s in P.ctor_sites(fn.body, "Transition") if s["k"] == "Struct"]
@@ -194,7 +193,8 @@ def structure_rules(repo, res):
             s = dead[0]
             loops = [g for g in A.guards_of(s, pm2) if g[0]["k"] == "ForLoop"]
             inner = A.resolve(loops[0][0]["iter"], e2.get(id(loops[0][0]))) if loops else ("none",)
-            outer = A.resolve(loops[1][0]["iter"], e2.get(id(loops[1][0]))) if len(loops) > 1 else ("none",)
+            # the state rows: the outermost enclosing loop (the symbols may come from an inner loop or from an iterator chain)
+            outer = A.resolve(loops[-1][0]["iter"], e2.get(id(loops[-1][0]))) if loops else ("none",)
             # what is known to hold where the dead transition is pushed, however the test is spelled (`if present { continue }`,
             # `.filter(|i| !present)`, a local naming the filtered iterator): exactly one negative membership test
             from vlib import preds as PR
